@@ -120,7 +120,8 @@ def mk_ite(cond, a, b):
 class SymExec:
     """env: name -> value.  effects: list of (kind, payload, path condition tuple)"""
 
-    def __init__(self, env=None, decide=None, watch=()):
+    def __init__(self, env=None, decide=None, watch=(), inline_displays=False):
+        self.inline_displays = inline_displays  # substitute list/dict displays and comprehensions bound to a local as well
         self.env = dict(env or {})
         self.effects = []
         self.path = ()
@@ -129,13 +130,14 @@ class SymExec:
         self.terminated = False   # a return / raise was executed on every path that reaches here
 
     def _child(self):
-        c = SymExec(self.env, self.decide, self.watch)
+        c = SymExec(self.env, self.decide, self.watch, self.inline_displays)
         return c
 
     # ---- expressions -------------------------------------------------------------------
     def text(self, node):
         """source text of node with local names replaced by the rendering of their value"""
         env = self.env
+        inline_displays = self.inline_displays
 
         class T(ast.NodeTransformer):
             def visit_Name(s, n):
@@ -146,16 +148,26 @@ class SymExec:
                     except SyntaxError:
                         return n
                     # a container created here keeps its name: it is an object that is filled later, not a value
-                    if isinstance(e, (ast.List, ast.Dict, ast.Set, ast.ListComp, ast.DictComp, ast.SetComp)) or \
-                            (isinstance(e, ast.Call) and dotted(e.func) in ("list", "dict", "set")):
+                    if not inline_displays and (isinstance(e, (ast.List, ast.Dict, ast.Set, ast.ListComp, ast.DictComp, ast.SetComp)) or
+                                                (isinstance(e, ast.Call) and dotted(e.func) in ("list", "dict", "set"))):
                         return n
                     return e
                 return n
 
             def visit_ListComp(s, n):
-                return n  # comprehension scopes are left alone
+                # free names of a comprehension are substituted, its own loop variables are not
+                own = {x.id for g in n.generators for x in ast.walk(g.target) if isinstance(x, ast.Name)}
+                hidden = {k: env.pop(k) for k in own if k in env}
+                try:
+                    s.generic_visit(n)
+                finally:
+                    env.update(hidden)
+                return n
 
-            visit_SetComp = visit_DictComp = visit_GeneratorExp = visit_Lambda = visit_ListComp
+            visit_SetComp = visit_DictComp = visit_GeneratorExp = visit_ListComp
+
+            def visit_Lambda(s, n):
+                return n
 
         import copy
 
@@ -164,6 +176,8 @@ class SymExec:
     def val(self, n):
         if isinstance(n, ast.Constant) and isinstance(n.value, int) and not isinstance(n.value, bool):
             return Lin(n.value)
+        if isinstance(n, ast.Constant) and isinstance(n.value, bool):
+            return Opaque(str(n.value))
         if isinstance(n, ast.Name):
             if n.id in self.env:
                 return self.env[n.id]
@@ -179,6 +193,29 @@ class SymExec:
         if isinstance(n, ast.Call) and dotted(n.func) in self.watch:
             self.effects.append(("watch", (dotted(n.func), [self.val(a) for a in n.args], n), self.path))
         return Opaque(self.text(n))
+
+    def _flag_loop(self, s):
+        """for u in C: if cond(u): flag = CONST   (nothing else in the body)  ->  flag = CONST if any(cond(u) for u in C) else flag"""
+        if s.orelse or not isinstance(s.target, ast.Name):
+            return False
+        updates = []
+        for st in s.body:
+            if not (isinstance(st, ast.If) and not st.orelse and len(st.body) == 1 and isinstance(st.body[0], ast.Assign)
+                    and len(st.body[0].targets) == 1 and isinstance(st.body[0].targets[0], ast.Name)
+                    and isinstance(st.body[0].value, ast.Constant) and isinstance(st.body[0].value.value, bool)):
+                return False
+            updates.append((st.test, st.body[0].targets[0].id, st.body[0].value.value))
+        if not updates or len({f for _, f, _ in updates}) != len(updates):
+            return False
+        u = s.target.id
+        saved = self.env.pop(u, None)
+        for test, flag, const in updates:
+            cond = f"any({self.text(test)} for {u} in {self.text(s.iter)})"
+            prev = self.env.get(flag, Opaque(f"<unbound {flag}>"))
+            self.env[flag] = mk_ite(cond, Opaque(str(const)), prev)
+        if saved is not None:
+            self.env[u] = saved
+        return True
 
     def cond_text(self, test):
         """text of a branch condition; a flag that was set by `flag = True if c else False` / under `if c:` is c itself"""
@@ -223,6 +260,8 @@ class SymExec:
             # an expression statement whose value is dropped: evaluated for watched calls only
             self.val(s.value)
         elif isinstance(s, ast.Pass):
+            pass
+        elif isinstance(s, ast.For) and self._flag_loop(s):
             pass
         elif isinstance(s, ast.While):
             # an inner loop is not followed: what it may re-bind becomes unknown, the loop itself is recorded
@@ -282,3 +321,82 @@ def width_of(v, arr_text):
     if v.cond in one:
         return v.a == flat and v.b == wide
     return False
+
+
+# ---- boolean structure over opaque atoms --------------------------------------------------------
+def _canon_atom(e):
+    """canonical text of a boolean atom: any([...]) == any(...), comprehension variables renamed, `and` operands sorted"""
+    import copy
+
+    e = copy.deepcopy(e)
+    if isinstance(e, ast.Call) and dotted(e.func) in ("any", "all") and len(e.args) == 1 and isinstance(e.args[0], (ast.ListComp, ast.GeneratorExp)):
+        c = e.args[0]
+        if len(c.generators) == 1 and isinstance(c.generators[0].target, ast.Name) and not c.generators[0].ifs:
+            v = c.generators[0].target.id
+            for n in ast.walk(c):
+                if isinstance(n, ast.Name) and n.id == v:
+                    n.id = "_u"
+            elt = c.elt
+            parts = sorted(unparse(x) for x in (elt.values if isinstance(elt, ast.BoolOp) and isinstance(elt.op, ast.And) else [elt]))
+            return f"{dotted(e.func)}({' and '.join(parts)} for _u in {unparse(c.generators[0].iter)})"
+    return unparse(e)
+
+
+def bool_table(value):
+    """(atoms, table): truth table of a symbolic boolean value over its opaque atoms.  table maps a tuple of atom
+    truth values (in the order of `atoms`) to True/False.  Raises AnalysisError when the structure is not boolean."""
+    atoms = []
+
+    def parse(v):
+        if isinstance(v, Ite):
+            return ("ite", parse_text(v.cond), parse(v.a), parse(v.b))
+        if isinstance(v, Opaque):
+            return parse_text(v.text)
+        raise AnalysisError(f"not a boolean value: {render(v)}")
+
+    def parse_text(t):
+        try:
+            e = ast.parse(t, mode="eval").body
+        except SyntaxError:
+            raise AnalysisError(f"cannot parse condition `{t}`")
+        return parse_ast(e)
+
+    def parse_ast(e):
+        if isinstance(e, ast.Constant) and isinstance(e.value, bool):
+            return ("const", e.value)
+        if isinstance(e, ast.UnaryOp) and isinstance(e.op, ast.Not):
+            return ("not", parse_ast(e.operand))
+        if isinstance(e, ast.BoolOp):
+            return ("and" if isinstance(e.op, ast.And) else "or", [parse_ast(x) for x in e.values])
+        if isinstance(e, ast.IfExp):
+            return ("ite", parse_ast(e.test), parse_ast(e.body), parse_ast(e.orelse))
+        a = _canon_atom(e)
+        if a not in atoms:
+            atoms.append(a)
+        return ("atom", a)
+
+    tree = parse(value)
+
+    def ev(t, env):
+        k = t[0]
+        if k == "const":
+            return t[1]
+        if k == "atom":
+            return env[t[1]]
+        if k == "not":
+            return not ev(t[1], env)
+        if k == "and":
+            return all(ev(x, env) for x in t[1])
+        if k == "or":
+            return any(ev(x, env) for x in t[1])
+        if k == "ite":
+            return ev(t[2], env) if ev(t[1], env) else ev(t[3], env)
+        raise AnalysisError("bad boolean tree")
+
+    import itertools
+
+    atoms_sorted = sorted(atoms)
+    table = {}
+    for vals in itertools.product([False, True], repeat=len(atoms_sorted)):
+        table[vals] = ev(tree, dict(zip(atoms_sorted, vals)))
+    return atoms_sorted, table
